@@ -606,6 +606,33 @@ def diamond_class_cases():
         yield {"part": "B", "program": case["program"], "ops": case["ops"], "directed": "diamond/" + "/".join(str(x) for x in m[1:])}
 
 
+def static_member_class_cases():
+    """Static and class methods defined by a class with invariants, used through (grand-)children that merely inherit them
+    (and through children that redefine them): they are not instance operations, with or without invariants."""
+    from vf.progmodel import gen as G
+
+    inv = {"cid": 1, "on": "CALL", "lam": False, "selfarg": True, "err": {"form": "default"}}
+
+    def member(kind, name):
+        params, defaults = G.params_of(kind)
+        return {"name": name, "kind": kind, "async": False, "params": params, "defaults": defaults, "decos": [], "body": {"ret": "obj"}}
+
+    for redefine in (False, True):
+        for root_inv in (True, False):
+            classes = [{"name": "K0", "bases": [], "root": "DBC", "shape": "plain", "invs": [dict(inv)] if root_inv else [],
+                        "members": [member("static", "st"), member("class", "cm"), member("method", "m")]},
+                       {"name": "K1", "bases": [0], "root": "DBC", "shape": "plain", "invs": [] if root_inv else [dict(inv)],
+                        "members": [member("static", "st"), member("class", "cm")] if redefine else []},
+                       {"name": "K2", "bases": [1], "root": "DBC", "shape": "plain", "invs": [], "members": []}]
+            ops = []
+            for ci in range(3):
+                ops.append({"op": "new", "cls": ci, "k": ci, "args": {}})
+                for nm in ("st", "cm", "m"):
+                    ops.append({"op": "call", "k": ci, "m": nm, "args": {"x": "a:x"}})
+            yield {"part": "B", "program": {"funcs": [], "classes": classes}, "ops": ops,
+                   "directed": "static-members/%s/%s" % ("redefined" if redefine else "inherited", "root-inv" if root_inv else "child-inv")}
+
+
 def body_view(log):
     return [(e[0], e[1]) for e in log if e[0] == "body"]
 
@@ -648,6 +675,15 @@ def check_class(ctx, case):
             ctx.fail("twin-outcome|%s|%s" % (ops[i]["op"], prog["classes"][0].get("shape")), dict(case, truth={}),
                      "op %d %r: with contracts %r, the undecorated twin %r\n%s" % (
                          i, {k: v for k, v in ops[i].items() if k != "truth"}, a[:2], b[:2], l1.text[l1.text.index("import abc"):][:3000]))
+            return
+        # an invariant looks at instances of its class only (a wrapper that takes some other argument for the instance
+        # would still come out "satisfied" here, where conditions never touch the object)
+        foreign = [e for e in H.segment(log1, outs1, i) if e[0] == "inv" and len(e) > 2 and isinstance(e[2], dict)
+                   and e[2].get("self", "self") != "self"]
+        if foreign:
+            ctx.fail("invariant-on-foreign-object|%s|%s" % (ops[i]["op"], prog["classes"][0].get("shape")), dict(case, truth={}),
+                     "op %d %r: an invariant was evaluated with something else than the instance as `self`: %r" % (
+                         i, {k: v for k, v in ops[i].items() if k != "truth"}, foreign[:3]))
             return
         s1 = body_view(H.segment(log1, outs1, i))
         s2 = body_view(H.segment(log2, outs2, i))
@@ -697,6 +733,9 @@ def run(ctx, tier, seed, shard, nshards):
         for case in diamond_class_cases():
             check_class(ctx, case)
             ctx.count("directed:diamond-classes")
+        for case in static_member_class_cases():
+            check_class(ctx, case)
+            ctx.count("directed:static-member-classes")
         colour_cases(ctx)
         self_name_cases(ctx)
         reserved_name_cases(ctx)
